@@ -336,3 +336,124 @@ Proof.
   intros reqauth b id0 ops sched Hb Hc Hd. destruct (disjoint_fids_spec ops Hc) as [H1 H2].
   exists (lin_orderB reqauth b id0 ops sched). apply disjoint_linearization_from; assumption.
 Qed.
+
+(* ------------------------------------------------------------------ every state a sequential set-up reaches is [base_ok] *)
+
+Definition tab_ok (s : state) : Prop :=
+  (forall f g p, refs s !! f = Some p -> refs s !! g = Some p -> f = g) /\
+  (forall f p, refs s !! f = Some p -> p < nextp s).
+
+Lemma tab_ok_delete : forall r (np : N) f,
+  ((forall f g p, r !! f = Some p -> r !! g = Some p -> f = g) /\ (forall f p, r !! f = Some p -> p < np)) ->
+  ((forall f0 g p, delete f r !! f0 = Some p -> delete f r !! g = Some p -> f0 = g) /\
+   (forall f0 p, delete f (r : gmap N N) !! f0 = Some p -> p < np)).
+Proof.
+  intros r np f [H1 H2]. split.
+  - intros f0 g p A B. apply lookup_delete_Some in A. apply lookup_delete_Some in B. eapply H1; [apply A | apply B].
+  - intros f0 p A. apply lookup_delete_Some in A. eapply H2. apply A.
+Qed.
+
+Lemma tab_ok_step : forall s i s', tab_ok s -> step s i = Some s' -> tab_ok s'.
+Proof.
+  intros s i s' [H1 H2] H. unfold step in H.
+  destruct (threads s !! i) as [th|]; [|discriminate].
+  destruct (t_prog th) as [r|f k|f k|f k|f k|f q k|k|vs ms k|q k|q k|q k|q g k|c k].
+  - discriminate.
+  - injection H as <-. split; assumption.
+  - destruct (refs s !! f) as [p0|] eqn:E; injection H as <-; [split; assumption|]. split; cbn.
+    + intros f0 g p A B. destruct (decide (f0 = f)) as [->|Hn1], (decide (g = f)) as [->|Hn2]; [reflexivity| | |].
+      * rewrite lookup_insert in A. rewrite lookup_insert_ne in B by congruence. injection A as <-.
+        pose proof (H2 _ _ B). lia.
+      * rewrite lookup_insert in B. rewrite lookup_insert_ne in A by congruence. injection B as <-.
+        pose proof (H2 _ _ A). lia.
+      * rewrite lookup_insert_ne in A, B by congruence. eapply H1; eauto.
+    + intros f0 p A. destruct (decide (f0 = f)) as [->|Hn].
+      * rewrite lookup_insert in A. injection A as <-. lia.
+      * rewrite lookup_insert_ne in A by congruence. pose proof (H2 _ _ A). lia.
+  - injection H as <-. apply (tab_ok_delete (refs s) (nextp s) f). split; assumption.
+  - injection H as <-. apply (tab_ok_delete (refs s) (nextp s) f). split; assumption.
+  - injection H as <-. cbn. destruct (match refs s !! f with Some q0 => q0 =? q | None => false end).
+    + apply (tab_ok_delete (refs s) (nextp s) f). split; assumption.
+    + split; assumption.
+  - injection H as <-. split; assumption.
+  - injection H as <-. split; assumption.
+  - destruct (owner s !! q); [discriminate|]. injection H as <-. split; cbn; [exact H1|].
+    intros f0 p A. pose proof (H2 _ _ A). lia.
+  - destruct (owner s !! q); injection H as <-; split; assumption.
+  - injection H as <-. split; assumption.
+  - injection H as <-. split; assumption.
+  - destruct (t_incall th); injection H as <-; split; assumption.
+Qed.
+
+Lemma tab_ok_run_alone : forall fuel s i, tab_ok s -> tab_ok (run_alone fuel s i).
+Proof.
+  induction fuel as [|fuel IH]; intros s i H; cbn [run_alone]; [exact H|].
+  destruct (step s i) as [s'|] eqn:E; [|exact H]. apply IH. eapply tab_ok_step; eauto.
+Qed.
+
+Lemma base_ok_seq_op : forall reqauth s h, base_ok s -> base_ok (fst (seq_op reqauth s h)).
+Proof.
+  intros reqauth s h [B1 B2 B3].
+  destruct (seq_op_returns reqauth s h B1) as (r & cs & _ & Ho).
+  assert (T : tab_ok (fst (seq_op reqauth s h))).
+  { unfold seq_op. cbn [fst]. apply tab_ok_run_alone. split; cbn; assumption. }
+  destruct T as [T1 T2]. constructor; assumption.
+Qed.
+
+(* the session after running the operations hs one at a time *)
+Definition seq_state (reqauth : bool) (s : state) (hs : list hop) : state :=
+  fold_left (fun s h => fst (seq_op reqauth s h)) hs s.
+
+Lemma base_ok_init : forall reqauth, base_ok (init reqauth []).
+Proof.
+  intro reqauth. constructor; cbn.
+  - reflexivity.
+  - intros f g p H. rewrite lookup_empty in H. discriminate.
+  - intros f p H. rewrite lookup_empty in H. discriminate.
+Qed.
+
+Lemma base_ok_seq_state : forall reqauth hs s, base_ok s -> base_ok (seq_state reqauth s hs).
+Proof.
+  intros reqauth hs. induction hs as [|h hs IH]; intros s H; cbn; [exact H|].
+  apply IH, base_ok_seq_op, H.
+Qed.
+
+(* after ANY sequential set-up [pre] of the fresh session: any number of operations on pairwise disjoint fid
+   sets, any schedule, any scripts - linearizable relative to the state the set-up left *)
+Theorem linearizable_disjoint_after_setup : forall reqauth pre id0 ops sched,
+  disjoint_fids (map fst ops) = true ->
+  all_done (run sched (start (seq_state reqauth (init reqauth []) pre) reqauth id0 ops)) ->
+  exists o, linearization_from reqauth (seq_state reqauth (init reqauth []) pre)
+              (history_from (seq_state reqauth (init reqauth []) pre) reqauth id0 ops sched) o.
+Proof.
+  intros reqauth pre id0 ops sched Hc Hd. apply linearizable_disjoint_from; [|exact Hc|exact Hd].
+  apply base_ok_seq_state, base_ok_init.
+Qed.
+
+(* ------------------------------------------------------------------ non-vacuity: a populated session, real FileSys calls in parallel *)
+
+Definition mkhop (id : N) (o : op) (sc : list outcome) : hop :=
+  {| h_op := o; h_script := sc; h_id := id; h_inv := 0; h_ret := 0; h_res := res_panic; h_calls := [] |}.
+
+(* set-up: attach(0) [a directory], clone 0->1, clone 0->2, walk 0->4 one name [a file], open(4) for read/write *)
+Definition ex_setup : list hop :=
+  [mkhop 0 (OpAttach 0 NOFID) [OOk 0 true]; mkhop 1 (OpWalk 0 1 0 true) [OOk 0 true];
+   mkhop 2 (OpWalk 0 2 0 true) [OOk 0 true]; mkhop 3 (OpWalk 0 4 1 true) [OOk 1 false]; mkhop 4 (OpOpen 4 2) [OOk 0 false]].
+(* then, concurrently: read(4), stat(2), clone 0->3, create in 1 (a file), clunk(7) of an unbound fid *)
+Definition ex_conc : list (op * list outcome) :=
+  [(OpRead 4, [OOk 5 false]); (OpStat 2, [OOk 0 false]); (OpWalk 0 3 0 true, [OOk 0 true]);
+   (OpCreate 1 false 1, [OOk 0 false]); (OpClunk 7, [])].
+Definition ex_base : state := seq_state false (init false []) ex_setup.
+Definition ex_conc_sched : list nat := concat (replicate 10 [0; 1; 2; 3; 4])%nat.
+
+Lemma ex_setup_then_disjoint :
+  disjoint_fids (map fst ex_conc) = true /\
+  all_done (run ex_conc_sched (start ex_base false 8 ex_conc)) /\
+  overlapb (history_from ex_base false 8 ex_conc ex_conc_sched) 0 1 = true /\
+  overlapb (history_from ex_base false 8 ex_conc ex_conc_sched) 2 3 = true /\
+  map (fun h => (r_cls (h_res h), r_val (h_res h), length (h_calls h))) (history_from ex_base false 8 ex_conc ex_conc_sched)
+    = [(R_OK, 5, 1%nat); (R_OK, 0, 1%nat); (R_OK, 0, 1%nat); (R_OK, 0, 1%nat); (R_UNKNOWNFID, 0, 0%nat)].
+Proof.
+  split; [vm_compute; reflexivity|]. split; [apply all_done_b; vm_compute; reflexivity|].
+  split; [vm_compute; reflexivity|]. split; vm_compute; reflexivity.
+Qed.
